@@ -47,6 +47,8 @@ EMem(b)      == Node("mem", "k", 0, Undef, <<b>>)          \* b.k
 EOptMem(b)   == Node("optmem", "k", 0, Undef, <<b>>)       \* b?.k
 EIdx(b, k)   == Node("idx", "", 0, Undef, <<b, k>>)        \* b[k]
 EDel(t)      == Node("del", "", 0, Undef, <<t>>)           \* delete t
+EHCall(f, args) == Node("hcall", f, 0, Undef, args)        \* host function call: f(args) | console.log(args)
+EDef         == Node("gdef", "DEF", 0, Undef, <<>>)        \* the global DEF (the subject of a `define`; undeclared in the host)
 \* statements
 SExpr(e)     == Node("expr", "", 0, Undef, <<e>>)
 SRet(e)      == Node("ret", "", 0, Undef, <<e>>)
@@ -67,6 +69,8 @@ SCase(t, ss) == Node("case", "", 0, Undef, <<t>> \o ss)
 SDefault(ss) == Node("default", "", 0, Undef, ss)
 STry(b, c, f) == Node("try", "e", 0, Undef, <<b, c, f>>)   \* c, f: block or None; catch parameter e
 SEmpty       == Node("empty", "", 0, Undef, <<>>)
+SDebugger    == Node("debugger", "", 0, Undef, <<>>)
+STryP(nm, b, c, f) == Node("try", nm, 0, Undef, <<b, c, f>>)   \* catch parameter nm
 
 (* ------------------------------------------------------------------ *)
 (* host objects, environments, machine state                          *)
@@ -80,7 +84,7 @@ ObjDef(id) == CASE id = 1 -> [kind |-> "plain", v |-> Undef]
                 [] id = 3 -> [kind |-> "valueOf", v |-> Str(<<97>>)]
 ObjIds == {1, 2, 3}
 KeyK   == CU("k")
-VarNames == {"a", "b", "x", "y", "i", "e"}
+VarNames == {"a", "b", "x", "y", "i", "e", "DEF"}     \* DEF: a LOCAL that shadows the global DEF
 NProbes  == 9                                 \* pv has NProbes entries
 
 Event(e, i, k, v) == [e |-> e, i |-> i, k |-> k, v |-> v]
@@ -196,8 +200,15 @@ Ev(e, st) ==
             ELSE LET st1 == [as.st EXCEPT !.tr = Append(@, Event("p", e.n, <<>>, as.vs)), !.calls = @ + 1]
                  IN IF st1.calls >= MaxCalls THEN R("throw", Err(3), st1)
                     ELSE R("val", st1.pv[e.n], st1)
+    [] e.k = "gdef" -> R("throw", RefErr, st)             \* DEF is not declared by the host
+    [] e.k = "hcall" ->                                    \* host functions: f returns its first argument, console.log undefined
+         LET as == EvList(e.a, st)
+         IN IF as.c # "val" THEN R(as.c, as.v, as.st)
+            ELSE R("val", IF e.op = "f" /\ as.vs # <<>> THEN as.vs[1] ELSE Undef,
+                   [as.st EXCEPT !.tr = Append(@, Event(e.op, 0, <<>>, as.vs))])
     [] e.k = "un" ->
-         IF e.op = "typeof" /\ e.a[1].k = "glob" /\ st.g.t = "undecl"
+         IF e.op = "typeof" /\ e.a[1].k = "gdef" THEN R("val", Str(CU("undefined")), st)
+         ELSE IF e.op = "typeof" /\ e.a[1].k = "glob" /\ st.g.t = "undecl"
          THEN R("val", Str(CU("undefined")), st)          \* typeof of an unresolvable reference
          ELSE LET r == Ev(e.a[1], st)
               IN IF r.c # "val" THEN r
@@ -319,7 +330,7 @@ SwRun(cs, i, st) ==
 
 Ex(s, st, L) ==
   CASE s.k = "expr"  -> LET r == Ev(s.a[1], st) IN C(IF r.c = "val" THEN "normal" ELSE r.c, IF r.c = "val" THEN Undef ELSE r.v, "", r.st)
-    [] s.k = "empty" -> C("normal", Undef, "", st)
+    [] s.k \in {"empty", "debugger"} -> C("normal", Undef, "", st)
     [] s.k = "ret"   -> IF s.a = <<>> THEN C("return", Undef, "", st)
                         ELSE LET r == Ev(s.a[1], st) IN C(IF r.c = "val" THEN "return" ELSE r.c, r.v, "", r.st)
     [] s.k = "throw" -> LET r == Ev(s.a[1], st) IN C(IF r.c = "val" THEN "throw" ELSE r.c, r.v, "", r.st)
